@@ -292,8 +292,163 @@ def _modstate(ctx):
                     if r is not None and (r in index.modules or index.module_var(r) is not None):
                         n += 1
                         ctx.ob("C10.modstate", f, x, False, "setattr on module-level object {}".format(r))
+    n += _shared_nested(ctx)
     ctx.count("module_state_write_sites", n)
     ctx.count("functions_scanned_for_module_state", len(index.nontest_funcs()))
+
+
+SHALLOW_COPIERS = frozenset(
+    "builtins.dict builtins.list builtins.set collections.OrderedDict copy.copy".split()
+)
+
+
+def _mut_depths(f, name):
+    """[(depth, node)] of mutations rooted at local `name` inside f (depth 1 = name[k] = v / name.update())"""
+    out = []
+    for n in iter_own(f.node):
+        tgts = []
+        if isinstance(n, (ast.Assign, ast.AugAssign, ast.AnnAssign)):
+            tgts = [t for t in (n.targets if isinstance(n, ast.Assign) else [n.target]) if isinstance(t, (ast.Subscript, ast.Attribute))]
+        elif isinstance(n, ast.Delete):
+            tgts = [t for t in n.targets if isinstance(t, (ast.Subscript, ast.Attribute))]
+        for t in tgts:
+            d, root = 0, t
+            while isinstance(root, (ast.Subscript, ast.Attribute)):
+                d += 1
+                root = root.value
+            if isinstance(root, ast.Name) and root.id == name:
+                out.append((d, n))
+        if isinstance(n, ast.Call) and isinstance(n.func, ast.Attribute) and n.func.attr in MUTATORS:
+            d, root = 1, n.func.value
+            while isinstance(root, (ast.Subscript, ast.Attribute)):
+                d += 1
+                root = root.value
+            if isinstance(root, ast.Name) and root.id == name:
+                out.append((d, n))
+    return out
+
+
+def _shared_nested(ctx):
+    """
+    A module-level container with nested mutable values that is aliased (`x = G`) or shallow-copied
+    (`G.copy()`, `dict(G)`, `{**G}`) inside a function and then mutated deeper than the copy goes
+    — directly or through a callee — keeps state between calls.
+    """
+    index = ctx.index
+    funcs = index.nontest_funcs()
+    # summary: (func, param) -> max mutation depth, through callees
+    depth = {}
+    for f in funcs:
+        for p in f.params:
+            ds = _mut_depths(f, p)
+            if ds:
+                depth[(f.qual, p)] = max(d for d, _ in ds)
+    changed = True
+    while changed:
+        changed = False
+        for f in funcs:
+            for n in iter_own(f.node):
+                if not isinstance(n, ast.Call):
+                    continue
+                callee = index.callee(f.mod, n, f)
+                if callee not in index.funcs:
+                    continue
+                tf = index.funcs[callee]
+                binds = []
+                for i, a in enumerate(n.args):
+                    if isinstance(a, ast.Starred):
+                        break
+                    if i < len(tf.params):
+                        binds.append((tf.params[i], a))
+                binds += [(k.arg, k.value) for k in n.keywords if k.arg]
+                for pname, a in binds:
+                    d0 = depth.get((callee, pname))
+                    if d0 is None:
+                        continue
+                    extra, root = 0, a
+                    while isinstance(root, (ast.Subscript, ast.Attribute)):
+                        extra += 1
+                        root = root.value
+                    if isinstance(root, ast.Name) and root.id in f.params:
+                        key = (f.qual, root.id)
+                        if depth.get(key, 0) < d0 + extra:
+                            depth[key] = d0 + extra
+                            changed = True
+    n_sites = 0
+    for f in funcs:
+        for n in iter_own(f.node):
+            if not isinstance(n, (ast.Assign, ast.AnnAssign)) or n.value is None:
+                continue
+            pairs = []
+            tg = n.targets if isinstance(n, ast.Assign) else [n.target]
+            for t in tg:
+                if isinstance(t, ast.Name):
+                    pairs.append((t.id, n.value))
+                elif isinstance(t, ast.Tuple) and isinstance(n.value, ast.Tuple) and len(t.elts) == len(n.value.elts):
+                    pairs += [(x.id, v) for x, v in zip(t.elts, n.value.elts) if isinstance(x, ast.Name)]
+            for lname, v in pairs:
+                kind, g = None, None
+                if isinstance(v, (ast.Name, ast.Attribute)):
+                    kind, g = "alias", v
+                elif isinstance(v, ast.Call) and isinstance(v.func, ast.Attribute) and v.func.attr == "copy" and not v.args:
+                    kind, g = "shallow copy", v.func.value
+                elif isinstance(v, ast.Call) and index.callee(f.mod, v, f) in SHALLOW_COPIERS and len(v.args) == 1:
+                    kind, g = "shallow copy", v.args[0]
+                elif isinstance(v, ast.Dict) and any(k is None for k in v.keys):
+                    kind, g = "shallow copy", [x for k, x in zip(v.keys, v.values) if k is None][0]
+                if g is None or not isinstance(g, (ast.Name, ast.Attribute)):
+                    continue
+                if isinstance(g, ast.Name) and g.id in f.locals:
+                    continue
+                r = index.resolve(f.mod, g, f)
+                mv = index.module_var(r) if r else None
+                if mv is None:
+                    continue
+                lit = getattr(mv[1][-1], "value", None)
+                if not isinstance(lit, (ast.Dict, ast.List, ast.Set, ast.Call, ast.DictComp, ast.ListComp)):
+                    continue
+                nested = isinstance(lit, (ast.Dict, ast.List)) and any(
+                    isinstance(x, (ast.Dict, ast.List, ast.Set, ast.DictComp, ast.ListComp, ast.SetComp))
+                    for x in (lit.values if isinstance(lit, ast.Dict) else lit.elts)
+                )
+                limit = 1 if kind == "alias" else 2
+                if kind == "shallow copy" and not nested:
+                    continue
+                n_sites += 1
+                worst = 0
+                witness = None
+                for d, node in _mut_depths(f, lname):
+                    if d > worst:
+                        worst, witness = d, node
+                # through callees
+                for c in iter_own(f.node):
+                    if isinstance(c, ast.Call):
+                        callee = index.callee(f.mod, c, f)
+                        if callee in index.funcs:
+                            tf = index.funcs[callee]
+                            for i, a in enumerate(c.args):
+                                extra, root = 0, a
+                                while isinstance(root, (ast.Subscript, ast.Attribute)):
+                                    extra += 1
+                                    root = root.value
+                                if isinstance(root, ast.Name) and root.id == lname and i < len(tf.params):
+                                    d0 = depth.get((callee, tf.params[i]))
+                                    if d0 is not None and d0 + extra > worst:
+                                        worst, witness = d0 + extra, c
+                ok = worst < limit
+                ctx.ob(
+                    "C10.modstate",
+                    f,
+                    n,
+                    ok,
+                    ""
+                    if ok
+                    else "`{}` is a {} of module-level {} (which holds nested mutable values) and is then mutated at "
+                    "depth {} ({}): the nested objects are shared between calls, so output depends on call "
+                    "history".format(lname, kind, r, worst, short(witness, 60)),
+                )
+    ctx.count("module_level_container_alias_sites", n_sites)
+    return 0
 
 
 def _module_level_target(index, f, root, full):
